@@ -144,12 +144,13 @@ def run_cmd(ctx, tree, op, now, cwd=None, keep=False, mtimes=None, root=None, ob
     meta_pre = sub.snapshot_meta(base)
     sub.AUDIT.update(on=True, events=[], opens=[], prefix=base)
     try:
-        res = ctx.run(name, args, now=now, cwd=cwd, order=order)
+        res = ctx.run(name, args, now=now, cwd=cwd, order=order, audit_prefix=base)
     finally:
         sub.AUDIT["on"] = False
     meta_post = sub.snapshot_meta(base)
-    obs = {"meta_pre": meta_pre, "meta_post": meta_post, "audit": list(sub.AUDIT["events"]),
-           "opens": list(sub.AUDIT["opens"]), "base": base}
+    obs = {"meta_pre": meta_pre, "meta_post": meta_post, "base": base,
+           "audit": list(sub.AUDIT["events"]) if res.audit is None else list(res.audit),
+           "opens": list(sub.AUDIT["opens"]) if res.opens is None else list(res.opens)}
     return res, sub.readback(root), obs
 
 
